@@ -124,6 +124,13 @@ def W_multi(tier):
     out.append([base[0], base[0]])
     trip = list(itertools.combinations(base, 3))
     out += [list(t) for t in (trip if tier == "thorough" else trip[::9])]
+    # tag conditions in several filters of one REQ, and a filter the query builder refuses next to valid ones
+    tagf = [{"#e": ["a"]}, {"#e": ["b"]}, {"#p": [A]}, {"#t": ["it's"]}, {"kinds": [2], "#e": ["a"]}, {"authors": [B], "#p": [A]}]
+    for a, b in itertools.permutations(tagf, 2):
+        out.append([a, b])
+    out.append([tagf[0], tagf[2], tagf[3]])
+    out.append([{"#p": [A], "#e": []}, {"kinds": [1]}])
+    out.append([{"kinds": [1]}, {"kinds": []}, {"#e": ["a"]}])
     out.append(base[:4])
     out.append(base[:5])
     out.append(base[3:8])
